@@ -190,6 +190,34 @@ func (p *PDU) RespReadBits() ([]bool, error) {
 	return ret, nil
 }
 
+// RespReadBitsCount reads count coils or discrete inputs from a
+// response PDU. The response only carries the number of data bytes, so the
+// number of values is what was requested.
+func (p *PDU) RespReadBitsCount(count int) ([]bool, error) {
+	if len(p.Data) < 2 {
+		return []bool{}, errors.New("not enough data")
+	}
+	switch p.FunctionCode {
+	case FuncCodeReadCoils, FuncCodeReadDiscreteInputs:
+		// ok
+	default:
+		return []bool{}, errors.New("invalid function code to read bits")
+	}
+
+	byteCount := int(p.Data[0])
+	if byteCount != (count+7)/8 || len(p.Data) < 1+byteCount {
+		return []bool{}, errors.New("RespReadBits wrong amount of data")
+	}
+
+	ret := make([]bool, count)
+
+	for i := 0; i < count; i++ {
+		ret[i] = ((p.Data[1+i/8] >> uint(i%8)) & 0x1) == 0x1
+	}
+
+	return ret, nil
+}
+
 // RespReadRegs reads register values from a
 // response PDU.
 func (p *PDU) RespReadRegs() ([]uint16, error) {
